@@ -349,8 +349,10 @@ class Trace:
                 self.events.append("X" + exc_name(e))
             return "send:" + (",".join(map(str, a[1])) or "-")
         if k == "cancel":
+            # a task that has not run its first step yet is not cancelled (asyncio would drop the call unseen:
+            # an artefact of driving the coroutine through create_task, not a behaviour of the library)
             for t, tid in self.tasks.items():
-                if tid == a[1]:
+                if tid == a[1] and t in self.started:
                     t.cancel()
             return "cancel:" + a[1]
         if k == "sub":
@@ -482,6 +484,17 @@ async def run_scenario(loop, scenario, **kw):
                 await asyncio.sleep(0)
         await simnet.drain(loop)
         audit()
+    # outcomes of the tasks as they stand when the story ends (the runner cancels leftovers afterwards)
+    tr.task_outcomes = {}
+    for t, tid in tr.tasks.items():
+        if not t.done():
+            tr.task_outcomes[tid] = ("pending",)
+        elif t.cancelled():
+            tr.task_outcomes[tid] = ("cancelled",)
+        elif t.exception() is not None:
+            tr.task_outcomes[tid] = ("err", exc_name(t.exception()), t.exception())
+        else:
+            tr.task_outcomes[tid] = ("ok", t.result())
     loop.before_callback = loop.after_callback = None
     # cancel leftovers quietly
     return tr
